@@ -402,7 +402,10 @@ class World:
         if expect is not None:
             verdict, cnt = expect
             if verdict == "either":
-                sync = (well_typed and len(msgs) == len(lights)) or (not ev["ok"] and ev["exc"]["proto"])
+                # either all of it is returned, or the call raises - and then the session must be closed (the exception class is
+                # judged by C05 / C09, the state by C08)
+                sync = (well_typed and len(msgs) == len(lights)) or (not ev["ok"])
+                ev["foreign"] = (not ev["ok"]) and not ev["exc"]["proto"]
             elif verdict == "ok":
                 sync = well_typed and len(msgs) == cnt
             else:
